@@ -207,6 +207,49 @@ fn check_ids(ctx: &mut Ctx, id: [u8; 4]) {
     }
 }
 
+/// a verbose string argument is a field of declared size n as well: the message parser must hand
+/// back the clean prefix of exactly those n bytes, for every n the 16-bit length can express
+fn check_string_argument(ctx: &mut Ctx, content: &[u8], be: bool) {
+    let n = content.len();
+    if n + 14 + 6 > 65535 {
+        return;
+    }
+    let total = 14 + 6 + n;
+    let mut b = vec![0x21 | if be { 2 } else { 0 }, 0, (total >> 8) as u8, total as u8, 0x41, 1, b'A', 0, 0, 0, b'C', 0, 0, 0];
+    let ti: u32 = 0x0000_8200; // string, UTF-8
+    if be {
+        b.extend_from_slice(&ti.to_be_bytes());
+        b.extend_from_slice(&(n as u16).to_be_bytes());
+    } else {
+        b.extend_from_slice(&ti.to_le_bytes());
+        b.extend_from_slice(&(n as u16).to_le_bytes());
+    }
+    b.extend_from_slice(content);
+    ctx.eval();
+    let exp = field_value(content).to_vec();
+    let res = guarded(|| dlt_message(&b, None, false).map(|(rest, pm)| (rest.len(), pm)));
+    let detail = |got: String| J::obj().set("declared_size", n).set("big_endian", be).set("content_hex", hex_trunc(content, 48)).set("expected_hex", hex_trunc(&exp, 48)).set("got", got);
+    let bucket = if n >= 32768 { ">=32768" } else if n >= 256 { ">=256" } else { "<256" };
+    match res {
+        Err(p) => ctx.panic_violation("string_argument.no_panic", &p, || detail("panic".into())),
+        Ok(Ok((0, ParsedMessage::Item(pm)))) => match &pm.payload {
+            PayloadContent::Verbose(a) if a.len() == 1 => match &a[0].value {
+                Value::StringVal(v) if v.as_bytes() == &exp[..] => {
+                    ctx.obs("ok.string_argument");
+                    ctx.obs_dyn(format!("ok.string_argument.size{}", bucket));
+                }
+                other => ctx.violation("string_argument.clean_prefix", bucket, || detail(crate::json::trunc(&format!("{:?}", other), 200))),
+            },
+            other => ctx.violation("string_argument.message_expected", bucket, || detail(crate::json::trunc(&format!("{:?}", other), 200))),
+        },
+        Ok(other) => ctx.violation("string_argument.message_expected", bucket, || detail(crate::json::trunc(&format!("{:?}", other), 200))),
+    }
+    ctx.shape(&("string_argument", bucket, be, exp.len().min(9)), true);
+}
+
+/// ids built from the bytes of the storage-header pattern
+const PATTERN_ALPHA: [u8; 6] = [0x44, 0x4C, 0x54, 0x01, 0x00, b'x'];
+
 impl Monitor for M {
     fn case(&mut self, ctx: &mut Ctx) {
         let light = ctx.light();
@@ -242,6 +285,54 @@ impl Monitor for M {
         }
         // random: long buffers of text with multi-byte scalars across the size limit / NULs
         ctx.obs("chunks.random");
+        // all 6^4 ids over the bytes of the storage-header pattern walk with the case index
+        {
+            let mut c = (i - ic) % 1296;
+            let mut id = [0u8; 4];
+            for b in id.iter_mut() {
+                *b = PATTERN_ALPHA[(c % 6) as usize];
+                c /= 6;
+            }
+            ctx.obs("ids.over_pattern_bytes");
+            check_ids(ctx, id);
+        }
+        // a string argument of a declared size around a power of two / anywhere up to the maximum
+        if !light || ctx.rng.chance(1, 4) {
+            let n = if light {
+                ctx.rng.usize_below(40)
+            } else {
+                match ctx.rng.below(8) {
+                    0 => 32767 + ctx.rng.usize_below(3),
+                    1 => (1usize << ctx.rng.range(1, 15)) - 1 + ctx.rng.usize_below(3),
+                    2 => 65515 - ctx.rng.usize_below(3),
+                    3 => ctx.rng.range(32768, 65515) as usize,
+                    _ => ctx.rng.usize_below(300),
+                }
+            };
+            let mut content: Vec<u8> = Vec::with_capacity(n);
+            let style = ctx.rng.below(3);
+            while content.len() < n {
+                match style {
+                    0 => content.push(b'a' + ctx.rng.below(26) as u8),
+                    1 => content.extend_from_slice(ctx.rng.pick(crate::gen_msg::CHUNKS).as_bytes()),
+                    _ => {
+                        if ctx.rng.chance(1, 200) {
+                            content.push(0);
+                        } else if ctx.rng.chance(1, 300) {
+                            content.push(0xFF);
+                        } else {
+                            content.push(b'a' + ctx.rng.below(26) as u8);
+                        }
+                    }
+                }
+            }
+            content.truncate(n);
+            if n > 0 && ctx.rng.chance(2, 3) {
+                content[n - 1] = 0; // the usual terminator inside the declared size
+            }
+            let be = ctx.rng.chance(1, 2);
+            check_string_argument(ctx, &content, be);
+        }
         let reps = if light { 2 } else { 16 };
         for _ in 0..reps {
             let max = if light { 200 } else { 70_000 };
@@ -293,7 +384,7 @@ impl Monitor for M {
         let light = ctx.light();
         let ml = max_len(ctx.tier, light);
         super::describe(
-            &format!("exhaustive: all {} byte strings of length <= {} over {{00,'a',C3,A9,E2,82,F0,FF}} x all sizes 0..=7; all 12^4 = 20736 four-byte ids over {{00,'A','z',' ',C3,A9,E2,82,AC,F0,9F,FF}} planted into storage-ECU / header-ECU / APID / CTID of a reference-encoded message and read back through dlt_message; random: buffers up to 70000 bytes (alphabet soup, valid multi-byte text, text with injected invalid sequences and NULs, arbitrary bytes) x sizes around the buffer end, around the first NUL and anywhere in 0..65535. distinct = (class, size bucket, length bucket, NUL present, salvage needed, result length bucket); non-trivial = size > 0", n_strings(ml), ml),
+            &format!("exhaustive: all {} byte strings of length <= {} over {{00,'a',C3,A9,E2,82,F0,FF}} x all sizes 0..=7; all 12^4 = 20736 four-byte ids over {{00,'A','z',' ',C3,A9,E2,82,AC,F0,9F,FF}} planted into storage-ECU / header-ECU / APID / CTID of a reference-encoded message and read back through dlt_message; random: per case one of the 6^4 ids over the bytes {{44,4C,54,01,00,'x'}} of the storage-header pattern through the same four fields, one verbose string argument of declared size n (around every power of two up to 2^15, 32767..32769, up to 65515) read back through dlt_message, and buffers up to 70000 bytes (alphabet soup, valid multi-byte text, text with injected invalid sequences and NULs, arbitrary bytes) x sizes around the buffer end, around the first NUL and anywhere in 0..65535. distinct = (class, size bucket, length bucket, NUL present, salvage needed, result length bucket); non-trivial = size > 0", n_strings(ml), ml),
             &["longest valid UTF-8 prefix is computed by a naive scalar-by-scalar validator written for the harness (RFC 3629 ranges)"],
             &[("ok.complete", super::scaled(ctx, 10000)), ("ok.utf8_salvaged", super::scaled(ctx, 1000)), ("ok.incomplete_with_hint", 100), ("ok.id", super::scaled(ctx, 5000))],
         )
